@@ -544,6 +544,12 @@ Section Hier.
                end
     end.
 
+  (* IndexHierarchy.__init__(levels=<IndexHierarchy>) (index_hierarchy.py:504-513) -- Series/Frame construction
+     with index=ihgo, IndexHierarchy(ihgo), IndexHierarchyGO(ihgo), rename, FrameGO.to_frame all go through it:
+     the cached blocks are handed over only `if not levels._recache`, i.e. exactly when the model state holds a
+     cache; the tree is taken over (deep-copied for a GO source) *)
+  Definition M_derive (st : ihgo) : ihgo := mk_ihgo (g_tree st) (g_cache st).
+
   (* what `values_at_depth` answers in a state: the cache when present *)
   Definition go_blocks (st : ihgo) : res (list (list A)) :=
     match g_cache st with Some c => c | None => M_blocks (g_tree st) end.
